@@ -293,12 +293,15 @@ fn decode_args_with_abi(
             | ArgEncoding::Padding { .. }
             => unreachable!(),
 
-            | ArgEncoding::Integer { arg0: true, .. }
+            | ArgEncoding::Integer { arg0: true, format, .. }
             => {
                 // a check that non-timeline languages don't have timeline args in their signature
                 // is done earlier so we can unwrap this
                 let extra_arg = pseudo_arg0.take().expect("timeline arg in sig for non-timeline language");
-                ScalarValue::Int(extra_arg as _)
+                match format.signed {
+                    true => ScalarValue::Int(extra_arg as i32),
+                    false => ScalarValue::Int(extra_arg as u16 as i32),
+                }
             },
 
             | ArgEncoding::JumpOffset
